@@ -8,13 +8,14 @@
 // ops:
 //   lim phimid0 phiL phiR                     Hydro::limit(., ., ., 0.5)         -> L v
 //   flux gamma i dx A dt L(30) R(30)          Hydro::do_flux_calculation         -> F dL(5) dR(5)
-//   gflux gamma i dx A dt L(30)               do_ghost_flux_calculation, reflective -> G dL(5)
+//   gflux <r|i|o> gamma i dx A dt L(30)       do_ghost_flux_calculation, reflective / inflow / outflow -> G dL(5)
 //   grad i dxinv L(30) limL(10) R(30) limR(10)  do_gradient_calculation
 //        -> D gradL_i(5) limL(10) gradR_i(5) limR(10)
-//   ggrad i dxinv L(30) limL(10)              do_ghost_gradient_calculation, reflective
+//   ggrad <r|i|o> i dxinv L(30) limL(10)      do_ghost_gradient_calculation, reflective / inflow / outflow
 //        -> E gradL_i(5) limL(10)
 //   slim dx(3) prim(5) grad(15) lim(10)       Hydro::apply_slope_limiter         -> S grad(15)
 //   pred gamma dt prim(5) grad(15) acc(3)     Hydro::predict_primitive_variables -> Q prim(5)
+//   tstep gamma V prim(5)                     Hydro::get_timestep                -> T dt
 //   ucons dt cons(5) dcons(5) acc(3) eterm    HydroDensitySubGrid::update_conserved_variables
 //        -> U cons(5) reset=<0|1>
 //   uprim gamma vmax invvol cons(5)           Hydro::set_primitive_variables     -> P prim(5)
@@ -73,6 +74,8 @@ int main() {
   std::string line;
   size_t lineno = 0;
   const ReflectiveHydroBoundary reflective;
+  const InflowHydroBoundary inflow;
+  const OutflowHydroBoundary outflow;
   double box[6] = {0., 0., 0., 1., 1., 1.};
   HydroDensitySubGrid onecell(box, CoordinateVector< int_fast32_t >(1, 1, 1));
   while (std::getline(std::cin, line)) {
@@ -168,16 +171,21 @@ int main() {
           }
         }
       }
-    } else if (op == "gflux" && w.size() == 36) {
-      const double gamma = dbl(w[1]);
-      const int i = std::atoi(w[2].c_str());
-      const double dx = dbl(w[3]), A = dbl(w[4]), dt = dbl(w[5]);
+    } else if (op == "gflux" && w.size() == 37) {
+      // gflux <r|i|o> gamma i dx A dt L(30): reflective / inflow / outflow boundary
+      const bool is_reflective = w[1] == "r";
+      const HydroBoundary &boundary = (w[1] == "i") ? static_cast< const HydroBoundary & >(inflow)
+                                      : (w[1] == "o") ? static_cast< const HydroBoundary & >(outflow)
+                                                      : static_cast< const HydroBoundary & >(reflective);
+      const double gamma = dbl(w[2]);
+      const int i = std::atoi(w[3].c_str());
+      const double dx = dbl(w[4]), A = dbl(w[5]), dt = dbl(w[6]);
       HydroVariables L;
-      read_cell(w, 6, L);
+      read_cell(w, 7, L);
       HydroVariables L0;
       L0.copy_all(L);
       const Hydro &hydro = hydro_of(gamma, 1.e99);
-      hydro.do_ghost_flux_calculation(i, CoordinateVector<>(0.), L, reflective, dx, A, dt);
+      hydro.do_ghost_flux_calculation(i, CoordinateVector<>(0.), L, boundary, dx, A, dt);
       out << "G";
       for (int j = 0; j < 5; ++j)
         out << " " << showF(L.delta_conserved(j));
@@ -190,7 +198,7 @@ int main() {
       {
         const double rho = L0.primitives(0), P = L0.primitives(4);
         const double vn = L0.primitives(1 + i);
-        if (rho > 0. && P > 0. && std::isfinite(1. / rho) && std::isfinite(1. / P)) {
+        if (is_reflective && rho > 0. && P > 0. && std::isfinite(1. / rho) && std::isfinite(1. / P)) {
           const double orientation = std::signbit(dx) ? -1. : 1.;
           const double vface =
               Hydro::limit(vn + 0.5 * dx * L0.primitive_gradients(1 + i)[i], vn, -vn, 0.5);
@@ -220,12 +228,16 @@ int main() {
           bad << " ghost-flux-not-finite";
           break;
         }
-    } else if ((op == "grad" && w.size() == 83) || (op == "ggrad" && w.size() == 43)) {
-      const int i = std::atoi(w[1].c_str());
-      const double dxinv = dbl(w[2]);
+    } else if ((op == "grad" && w.size() == 83) || (op == "ggrad" && w.size() == 44)) {
+      const size_t o = (op == "ggrad") ? 1 : 0;   // ggrad <r|i|o> i dxinv ...
+      const HydroBoundary &boundary = (o && w[1] == "i") ? static_cast< const HydroBoundary & >(inflow)
+                                      : (o && w[1] == "o") ? static_cast< const HydroBoundary & >(outflow)
+                                                           : static_cast< const HydroBoundary & >(reflective);
+      const int i = std::atoi(w[1 + o].c_str());
+      const double dxinv = dbl(w[2 + o]);
       HydroVariables L, R, L0, R0;
       double limL[10], limR[10];
-      size_t k = read_cell(w, 3, L);
+      size_t k = read_cell(w, 3 + o, L);
       for (int j = 0; j < 10; ++j)
         limL[j] = dbl(w[k++]);
       L0.copy_all(L);
@@ -238,7 +250,7 @@ int main() {
         hydro.do_gradient_calculation(i, L, R, dxinv, limL, limR);
         out << "D";
       } else {
-        hydro.do_ghost_gradient_calculation(i, CoordinateVector<>(0.), L, reflective, dxinv,
+        hydro.do_ghost_gradient_calculation(i, CoordinateVector<>(0.), L, boundary, dxinv,
                                             limL);
         out << "E";
       }
@@ -328,6 +340,13 @@ int main() {
           bad << " predicted-velocity-nan";
           break;
         }
+    } else if (op == "tstep" && w.size() == 8) {
+      // tstep gamma V prim(5)    Hydro::get_timestep -> T dt
+      HydroVariables h;
+      for (int j = 0; j < 5; ++j)
+        h.primitives(j) = dbl(w[3 + j]);
+      IonizationVariables ion;
+      out << "T " << showF(hydro_of(dbl(w[1]), 1.e99).get_timestep(h, ion, dbl(w[2])));
     } else if (op == "ucons" && w.size() == 16) {
       const double dt = dbl(w[1]);
       HydroVariables &h = onecell.hydro_begin().get_hydro_variables();
